@@ -14,6 +14,8 @@ PROP = dict(
     ],
     gen=[
         dict(module="GenServePipeline", cfg=dict(quick="GenServePipeline_quick.cfg", thorough="GenServePipeline_thorough.cfg"), timeout=1200),
+        dict(module="GenServePipeline", cfg=dict(quick="GenServePipeline_mixed.cfg", thorough="GenServePipeline_mixed_thorough.cfg"), timeout=1200),
+        dict(module="GenServePipeline", cfg="GenServePipeline_solo.cfg", timeout=600),
         dict(module="GenAccessorMemo", cfg=dict(quick="GenAccessorMemo_quick.cfg", thorough="GenAccessorMemo_thorough.cfg"), timeout=1200),
     ],
     driver="c09",
@@ -31,8 +33,9 @@ PROP = dict(
                "on a real Context with call counters. Free-running batches (4/16/64 goroutines, GOMAXPROCS 1/4/16) run under the race "
                "detector; their per-request projections are validated by the same spec and a race report is a rejected event.",
     level_note="interleavings are controlled at hook/callback granularity only; inside a stage only the free-running -race runs look; "
-               "only admissible requests are scheduled (refusal paths belong to C02/C06/C07); the race detector is the observer "
-               "for the data-race clause",
+               "the model also covers the refusal paths of the pipeline (404/405, 401, 400/415, 406, 422, handler error) and their "
+               "precedence: admissible requests are interleaved with requests that have one thing wrong, and every consistent set of "
+               "defects is served alone (624 kinds); the race detector is the observer for the data-race clause",
     rule="case = one replayed schedule (2 requests, all their stages), one accessor history, or one free-running batch; "
          "non-trivial: a schedule with >=2 requests, a history with at least one memo hit, any concurrent batch; distinct by hash",
     assumptions=COMMON_ASSUME + [
